@@ -90,9 +90,12 @@ PADDING_FIELD = "padding"
 
 
 class OptionalInt(ctypes.Structure):
+    # NOTE the integer field must not be called "value": ctypes installs the field
+    # descriptors after the class body, so a field of that name would shadow the
+    # `value` property below and an undefined entry would be read back as 0.
     _fields_ = [
         ("type", ctypes.c_uint8),
-        ("value", INTEGER),
+        ("_value", INTEGER),
     ]
 
     _NULL_TYPE = 0x00
@@ -101,16 +104,17 @@ class OptionalInt(ctypes.Structure):
     def __init__(self, value):
         if value is None:
             self.type = self._NULL_TYPE
-            self.value = 0
+            self._value = 0
         else:
             self.type = self._INT_TYPE
-            self.value = value
+            self._value = value
 
+    @property
     def value(self):
         if self.type == self._NULL_TYPE:
             return None
         elif self.type == self._INT_TYPE:
-            return self.value
+            return self._value
         else:
             raise TypeError(f"Unknown type {self.type}")
 
